@@ -167,6 +167,16 @@ def run_shard(spec, acc):
                     imps = sorted(set(imps) | set(rnd.sample(extra, rnd.randint(1, 3))))
                     acc.count("forced_nested_list_with_later_sibling")
                     break
+        if rnd.random() < 0.3:
+            # layer NAMES are free text: prefixes of each other, case twins, dots, a module's name, the word "layer"
+            pool = ["L1", "L10", "L100", "data", "database", "Data", "a.b", "r.a", "layer", "x y", "web-ui", "größe"]
+            new_names = dict(zip(list(layers), rnd.sample(pool, len(layers))))
+            layers = {new_names[k]: v for k, v in layers.items()}
+            kinds = {new_names[k]: v for k, v in kinds.items()}
+            names = [new_names[n] for n in names]
+            subject = new_names[subject]
+            objects = [new_names[o] for o in objects]
+            acc.count("adversarial_layer_names")
         if rnd.random() < 0.06:
             # a layer may be called anything, the empty string included
             old_name = rnd.choice(names)
@@ -211,7 +221,7 @@ def floors(acc, tier):
         for o in ("pass", "fail"):
             if h.get(f"{s}:{o}", 0) == 0:
                 why.append(f"shape {s} never observed with outcome {o}")
-    for c in ("forced_intra_layer_only", "forced_unmentioned_regex_layer", "forced_mixed_object_layers", "forced_nested_list_with_later_sibling", "forced_unmentioned_regex_layer_without_match"):
+    for c in ("forced_intra_layer_only", "forced_unmentioned_regex_layer", "forced_mixed_object_layers", "forced_nested_list_with_later_sibling", "forced_unmentioned_regex_layer_without_match", "adversarial_layer_names"):
         if acc.counters[c] < 50:
             why.append(f"{c}: only {acc.counters[c]}")
     if acc.counters["layer_rule_objects_applied_to_two_architectures"] < 20:
